@@ -3,7 +3,7 @@ from ..facts import Program
 from ..run import Check, AnalysisBroken
 from ..rules import r9_sibling, kernels
 from ..rules.effects import PathEffects
-from . import _drv, _gssvx, _expert
+from . import _drv, _gssvx, _expert, c01
 
 SPLIT = ('Fact', 'Trans', 'Equil', 'A.Stype', 'equed', 'info')
 R9_UNITS = ['gssvx.c', 'gsequ.c', 'laqgs.c', 'gstrs.c', 'sp_blas2.c', 'gsrfs.c']
@@ -29,6 +29,8 @@ def run(tier):
         kernels.run_factor(chk, 'C05.kern', prog, cfgname)
         for g in ('equil', 'scale'):
             chk.clause('C05.' + g, 'R3 oracle group `%s` of ?gssvx' % g)
+        chk.clause('C05.phases', 'R3 oracle group `phases` of ?gssvx')
+        chk.clause('C01.D2', 'R3/R7 permutation roles and solve order of ?gstrs')
         nleaves = 0
         for p in _drv.PRECS:
             f, fl, leaves = _gssvx.leaves_for(prog, eff, p, ilu=False, tier=tier, split=SPLIT)
@@ -38,6 +40,11 @@ def run(tier):
             ctx = _expert.Ctx(prog, f, fl, p, False)
             _expert.run_leaf_groups(chk, 'C05', ctx, leaves, ('equil', 'scale'), cfgname)
             nleaves += len(leaves)
+            # which phases run for each Fact value (an ordering recomputed for SamePattern no longer matches the remembered tree) and the
+            # dispatch of the solve routine over Trans: both decide whether X solves op(A) X = B at all
+            f2, fl2, leaves2 = _gssvx.leaves_for(prog, eff, p, ilu=False, tier=tier, split=('Fact', 'ColPerm', 'A.Stype', 'Equil', 'info', 'lwork'))
+            _expert.run_leaf_groups(chk, 'C05', _expert.Ctx(prog, f2, fl2, p, False), leaves2, ('phases',), cfgname)
+            c01.gstrs_oracle(chk, prog, eff, p, cfgname)
         if nleaves < 4 * 300:
             raise AnalysisBroken('C05: %d leaf valuations explored, floor %d' % (nleaves, 1200))
         chk.notes.append('%s: %d leaf valuations of ?gssvx' % (cfgname, nleaves))
